@@ -219,9 +219,11 @@ pub assume_specification<P: core::str::pattern::Pattern>[ str::starts_with::<P> 
 // ---- byte lengths ----
 pub uninterp spec fn byte_len(s: Seq<char>) -> nat;
 pub broadcast axiom fn axiom_str_byte_len(s: &str)
-    ensures #[trigger] vstd::string::StringSliceAdditionalSpecFns::spec_bytes(s).len() == byte_len(s@);
+    ensures #[trigger] vstd::string::StringSliceAdditionalSpecFns::spec_bytes(s).len() == byte_len(s@),
+        // no Rust allocation or slice is larger than isize::MAX bytes (core::alloc::Layout / slice::from_raw_parts contract)
+        vstd::string::StringSliceAdditionalSpecFns::spec_bytes(s).len() <= isize::MAX;
 pub assume_specification[ String::len ](s: &String) -> (r: usize)
-    ensures r as nat == byte_len(s@);
+    ensures r as nat == byte_len(s@), r <= isize::MAX;
 
 // ---- trim_matches(char) ----
 pub open spec fn trim_start_char(s: Seq<char>, c: char) -> Seq<char>
